@@ -129,3 +129,32 @@ def c03_member_descriptions_dropped(kind) -> bool:
     (arguments, input fields) and enum value definitions.  tests/test_lang/test_ast_printer.py::test_schema_kitchen_sink pins
     the output without them, so printing them cannot be added without editing a test."""
     return ENABLED and kind in ("FieldDefinition", "InputValueDefinition", "EnumValueDefinition")
+
+
+def c11_default_uses_extension_field(rec, base_rec) -> bool:
+    """KF C11-default-uses-extension-field: SDL defaults are coerced while the base definitions are built, before
+    `extend input` blocks are merged; a default that sets an input field declared only in an extension is rejected
+    (SDLError 'Field ... is not defined') although the document as a whole is valid.  Root cause: two-phase build."""
+    if not ENABLED:
+        return False
+
+    def uses_missing(type_expr, v):
+        base = type_expr.strip("[]!")
+        t = base_rec["types"].get(base)
+        if isinstance(v, list):
+            return any(uses_missing(type_expr, x) for x in v)
+        if not (isinstance(v, dict) and t and t["kind"] == "input"):
+            return False
+        names = {f["name"]: f for f in t["fields"]}
+        for k, x in v.items():
+            if k not in names:
+                return True
+            if uses_missing(names[k]["type"], x):
+                return True
+        return False
+    for t in rec["types"].values():
+        for f in t.get("fields", []) if t["kind"] in ("object", "interface") else []:
+            for a in f.get("args", []):
+                if a.get("default") and uses_missing(a["type"], a["default"][1]):
+                    return True
+    return False
